@@ -70,14 +70,24 @@ func (c *Claim) String() string {
 type ClaimPtrsByDate []*Claim
 
 func (cl ClaimPtrsByDate) Len() int           { return len(cl) }
-func (cl ClaimPtrsByDate) Less(i, j int) bool { return cl[i].Date.Before(cl[j].Date) }
+func (cl ClaimPtrsByDate) Less(i, j int) bool { return claimBefore(cl[i], cl[j]) }
 func (cl ClaimPtrsByDate) Swap(i, j int)      { cl[i], cl[j] = cl[j], cl[i] }
 
 type ClaimsByDate []Claim
 
 func (cl ClaimsByDate) Len() int           { return len(cl) }
-func (cl ClaimsByDate) Less(i, j int) bool { return cl[i].Date.Before(cl[j].Date) }
-func (cl ClaimsByDate) Swap(i, j int)      { cl[i], cl[j] = cl[j], cl[i] }
+func (cl ClaimsByDate) Less(i, j int) bool { return claimBefore(&cl[i], &cl[j]) }
+
+// claimBefore orders claims by date and, for equal dates, by blobref, so that
+// the order of a set of claims does not depend on the order in which they
+// were received or loaded.
+func claimBefore(a, b *Claim) bool {
+	if !a.Date.Equal(b.Date) {
+		return a.Date.Before(b.Date)
+	}
+	return a.BlobRef.Less(b.BlobRef)
+}
+func (cl ClaimsByDate) Swap(i, j int) { cl[i], cl[j] = cl[j], cl[i] }
 
 func (cl ClaimsByDate) String() string {
 	var buf bytes.Buffer
